@@ -108,6 +108,10 @@ def source_of_function(fn: types.FunctionType) -> FuncSource | None:
     path = code.co_filename
     if not os.path.isfile(path):
         return None
+    if path.endswith((".lpy", ".cljc")):
+        from . import lpy  # a function written in Lisp: the Python that /repo's compiler emits for it
+
+        return lpy.source_of_lisp_function(fn)
     idx = _index_file(path)
     hit = idx.get((code.co_name, code.co_firstlineno))
     if hit is None:
@@ -120,6 +124,10 @@ def find_by_qualname(module: str, qualname: str) -> FuncSource:
     """Find ``Class.method`` or ``func`` in the source file of ``module``."""
     mod = importlib.import_module(module)
     path = mod.__file__
+    if path.endswith((".lpy", ".cljc")):
+        from . import lpy
+
+        return lpy.find_lisp(module, qualname)
     tree = parse_file(path)
     parts = qualname.split(".")
     node: ast.AST = tree
